@@ -1,7 +1,9 @@
 #!/bin/bash
 # usage: check.sh <property id> <quick|thorough>
 # Static check of one property against /repo's current working tree. Exit 0 = every obligation discharged (or a
-# listed known finding), 1 = VIOLATION, 2 = broken run (load failure, unresolved anchor, undecided obligation).
+# listed known finding), 1 = VIOLATION (also when an obligation could not be decided or a rule lost its instances: the
+# property was not shown to hold — fail closed, the replay file then lists the undecided obligations), 2 = the checker
+# itself could not run (build or load failure of the analyser or of the subject).
 set -u
 HERE="$(cd "$(dirname "$0")" && pwd)"
 export GOFLAGS=-mod=mod GOPROXY=off GOSUMDB=off GOTOOLCHAIN=local GOWORK=off
